@@ -440,6 +440,30 @@ pub fn check(prop: &str, tier_name: &str) -> i32 {
                 }
             }
         }
+        if !done && prop == "C05" {
+            // The divergence may need state that the reference-first replay itself resets or masks
+            // (process-wide memo filled by whichever compilation comes first): decide it against a
+            // pristine process instead - history = the world that diverged, then the request alone.
+            for v in cands.iter().take(3) {
+                let Some(w) = v.worlds.last() else { continue };
+                let Some(job) = w.jobs.iter().find(|j| j.key() == v.job_key) else { continue };
+                let mut cj = job.clone();
+                cj.reader = StreamSpec::canonical();
+                cj.writer = StreamSpec::canonical();
+                let Some(pristine) = last_obs_hash(prop, &[World::solo(prop, cj.clone())]) else { continue };
+                if let Some(path) = prochist_from_worlds(&root, prop, std::slice::from_ref(w), &cj, pristine) {
+                    println!("simc: {} x{}: {} (reproduced against a pristine process)", key, count, v.detail.chars().take(300).collect::<String>());
+                    println!("VIOLATION property={} replay={}", prop, path);
+                    exit = 1;
+                    reported += 1;
+                    done = true;
+                    break;
+                }
+            }
+            if done {
+                continue;
+            }
+        }
         if !done && key.starts_with("HANG|wall|") {
             // a slow-but-finite job that outlasted the search backstop under load: not a hang
             println!("simc: wall-clock suspect {} finished when re-run alone with a 200 s budget: dropped", key);
@@ -648,6 +672,15 @@ fn prochist_violation(root: &std::path::Path, prop: &str, base: u64, corpus: &[P
     let target = format!("ref:{:016x}", job.key());
     let cut = hist.iter().position(|t| *t == target).unwrap_or(hist.len());
     let full = regen_history(prop, base, corpus, &hist[..cut]);
+    prochist_from_worlds(root, prop, &full, job, pristine)
+}
+
+/// `full`: worlds a process ran before it observed `job`; `pristine`: observation hash of `job` alone in a fresh process.
+fn prochist_from_worlds(root: &std::path::Path, prop: &str, full: &[World], job: &JobSpec, pristine: u64) -> Option<String> {
+    let mut cj = job.clone();
+    cj.reader = StreamSpec::canonical();
+    cj.writer = StreamSpec::canonical();
+    let job = &cj;
     let last = World::solo(prop, job.clone());
     let differs = |h: &[World]| -> bool {
         let mut w = h.to_vec();
